@@ -167,7 +167,9 @@ theorem sysRename_exact (fs fs' : Fs) (frm to : Bytes) (hwf : WF fs) (pf : CPath
   have hleaf := leaf_of_nondir fs hwf pf e hpf hgpf he
   unfold sysRename at h
   rw [hsrc] at h
-  simp only [hpf, if_false] at h
+  by_cases hcw : pf.isPrefixOf cwd = true
+  · simp [hcw] at h
+  simp only [hcw, Bool.false_eq_true, if_false] at h
   cases hrt : resolve fs to false with
   | err e0 => simp [hrt] at h
   | missing pa n =>
@@ -270,10 +272,18 @@ theorem fileRename_exact (fs : Fs) (frm to : Bytes) (fie : Bool) (hwf : WF fs) (
               · simp [hne0] at hres
               · rw [if_neg hne0] at hres ⊢
                 exact walk_after_create fs (.file []) (by intro t; simp) _ _ _ false false _ _ (Or.inl rfl) hres
+            have hcw : ¬ (pf.isPrefixOf cwd = true) := by
+              intro hcw
+              have : sysRename (fs.set (pa ++ [n]) (.file [])) frm to = (fs.set (pa ++ [n]) (.file []), .error .einval) := by
+                unfold sysRename
+                rw [hsrc1]
+                simp [hcw]
+              rw [this] at h
+              simp at h
             have hren : sysRename (fs.set (pa ++ [n]) (.file [])) frm to = (fs.moveTree pf (pa ++ [n]), .ok ()) := by
               unfold sysRename
               rw [hsrc1]
-              simp only [hpf, if_false, hto1, hne, he, moveTree_set]
+              simp only [hcw, if_false, hto1, hne, he, moveTree_set]
               simp
             rw [hren]
             simp only
